@@ -296,6 +296,12 @@ fn prepare_response(
         http::StatusCode::NO_CONTENT
         | http::StatusCode::CONTINUE
         | http::StatusCode::PROCESSING => *size = BodySize::None,
+
+        // a 304 never has a body either; like HTTP/1, keep a manually set content-length
+        http::StatusCode::NOT_MODIFIED => {
+            skip_len = false;
+            *size = BodySize::None;
+        }
         http::StatusCode::SWITCHING_PROTOCOLS => {
             skip_len = true;
             *size = BodySize::Stream;
